@@ -177,7 +177,7 @@ Definition put (v : uval) (isc : bool) (base : list frame) (tob : topobj) : opti
                  | TDone _ => None
                  end
   | FSlice l :: r => Some (FSlice (l ++ [v]) :: r, tob)
-  | FMap id kvs key false None :: r => Some (FMap id kvs (Some v) true None :: r, tob)
+  | FMap id kvs _ false None :: r => Some (FMap id kvs (Some v) true None :: r, tob)
   | FMap id kvs (Some k) true None :: r =>
       if hashable k then Some (FMap id (assoc_set k v kvs) (Some k) false None :: r, tob) else None
   | FNode false _ :: r => Some (FSlice [] :: FNode true v :: r, tob)
@@ -611,10 +611,1129 @@ Section Leaves.
       + destruct (stringlike_conv t data k0 H) as [x [Hc [Hd Hh]]].
         exists x. split; [exact Hc|]. split; [exact Hd|]. split; [exact Hh|].
         intro Hp. subst. discriminate.
-    - (* EMedia *)
-      apply andb_true_iff in H as [Hk _].
-      do 2 eexists. split; [reflexivity|]. split; [reflexivity|]. intro k0.
-      eexists. split; [reflexivity|]. split; [reflexivity|]. split; [reflexivity|].
-      intro Hp; subst; discriminate.
   Qed.
 End Leaves.
+
+(* ------------------------------------------------------------------ *)
+(* Arrays delivered in chunks (elements of one byte)                    *)
+(* ------------------------------------------------------------------ *)
+
+Section Chunks.
+  Variable uc : bytes -> option bytes.
+  Variable tc : bytes -> option (bytes * bytes).
+
+  Lemma rem_sub (r k : N) : k <= r -> r < two64 -> (r + two64 - k mod two64) mod two64 = r - k.
+  Proof.
+    intros Hk Hr. unfold two64 in *.
+    rewrite (N.mod_small k) by lia.
+    replace (r + 18446744073709551616 - k) with ((r - k) + 1 * 18446744073709551616) by lia.
+    rewrite N.mod_add by discriminate. apply N.mod_small. lia.
+  Qed.
+
+  Lemma chunks_exec es : forall rem more acc data st,
+    chunks_ok es rem more acc = Some data ->
+    crem st = rem -> cmore st = more -> cdata st = acc -> rem < two64 ->
+    exec uc tc st es = fire uc tc (set_chunk st data 0 false (ccb st)).
+  Proof.
+    induction es as [|e r IH]; intros rem more acc data st H Hr Hm Ha Hlt; cbn [chunks_ok] in H.
+    - discriminate.
+    - destruct e; try discriminate.
+      + (* chunk header *)
+        destruct (two64 <=? n) eqn:Hn; [discriminate|]. apply N.leb_gt in Hn.
+        cbn [exec step]. unfold on_chunk.
+        destruct (negb more0 && (n =? 0)) eqn:Hfire.
+        * destruct r; [|discriminate]. inversion H; subst.
+          apply andb_true_iff in Hfire as [Hm0 Hn0]. apply negb_true_iff in Hm0. apply N.eqb_eq in Hn0. subst.
+          destruct (fire uc tc _); reflexivity.
+        * cbn [rbind]. erewrite IH; [reflexivity|exact H|reflexivity|reflexivity|exact Ha|exact Hn].
+      + (* data *)
+        destruct (rem <? N.of_nat (length data0)) eqn:Hk; [discriminate|]. apply N.ltb_ge in Hk.
+        cbn [exec step]. unfold on_data. rewrite Hr, Hm, Ha.
+        rewrite rem_sub by assumption.
+        destruct (negb more && (rem - N.of_nat (length data0) =? 0)) eqn:Hfire.
+        * destruct r; [|discriminate]. inversion H; subst.
+          apply andb_true_iff in Hfire as [Hm0 Hn0]. apply negb_true_iff in Hm0. apply N.eqb_eq in Hn0.
+          rewrite Hn0, Hm0. destruct (fire uc tc _); reflexivity.
+        * cbn [rbind]. erewrite IH; [reflexivity|exact H|reflexivity|reflexivity|reflexivity|].
+          cbn [crem set_chunk]. lia.
+  Qed.
+
+  Lemma chunked_exec b body data st :
+    chunked_data body = Some data ->
+    exec uc tc st (begin_event b :: body) = fire uc tc (set_chunk st data 0 false (abegin_cb b)).
+  Proof.
+    unfold chunked_data. destruct body as [|e r]; [discriminate|].
+    destruct e; try discriminate. intro H. cbn [chunks_ok] in H.
+    destruct (two64 <=? n) eqn:Hn; [discriminate|]. apply N.leb_gt in Hn.
+    assert (Hb : step uc tc st (begin_event b) = ROk (set_chunk st [] (crem st) (cmore st) (abegin_cb b))).
+    { destruct b; reflexivity. }
+    cbn [exec]. rewrite Hb. cbn [rbind step]. unfold on_chunk.
+    destruct (negb more && (n =? 0)) eqn:Hfire.
+    - destruct r; [|discriminate]. inversion H; subst.
+      apply andb_true_iff in Hfire as [Hm0 Hn0]. apply negb_true_iff in Hm0. apply N.eqb_eq in Hn0. subst.
+      cbn. destruct (fire uc tc _); reflexivity.
+    - cbn [rbind]. erewrite chunks_exec; [reflexivity|exact H|reflexivity|reflexivity|reflexivity|exact Hn].
+  Qed.
+End Chunks.
+
+(* ------------------------------------------------------------------ *)
+(* The fragment: every value is built, with the right data              *)
+(* ------------------------------------------------------------------ *)
+
+Definition pos_of (base : list frame) : pos :=
+  match base with
+  | FMap _ _ _ false _ :: _ => PKey
+  | FNode false _ :: _ => PNodeVal
+  | _ => PGen
+  end.
+Definition ready (base : list frame) (tob : topobj) : bool :=
+  match put UNil false base tob with Some _ => true | None => false end.
+Definition top_is_ftop (base : list frame) : bool :=
+  match base with FTop :: _ => true | _ => false end.
+
+Lemma ready_put base tob v isc :
+  ready base tob = true -> exists s t, put v isc base tob = Some (s, t).
+Proof.
+  unfold ready. destruct base as [|fr r]; [discriminate|].
+  destruct fr; cbn [put]; try discriminate.
+  - destruct tob; [|discriminate]. intros _. do 2 eexists; reflexivity.
+  - intros _. do 2 eexists; reflexivity.
+  - destruct key as [k|], want_value, rec; try discriminate.
+    + destruct (hashable k); [|discriminate]. intros _. do 2 eexists; reflexivity.
+    + intros _. do 2 eexists; reflexivity.
+    + intros _. do 2 eexists; reflexivity.
+  - destruct children_mode; [discriminate|]. intros _. do 2 eexists; reflexivity.
+Qed.
+
+(* put does not look at isc except at the top-level builder *)
+Lemma put_isc base tob v isc1 isc2 :
+  top_is_ftop base = false -> put v isc1 base tob = put v isc2 base tob.
+Proof. destruct base as [|fr r]; [reflexivity|]. destruct fr; try reflexivity. discriminate. Qed.
+
+(* is the value a container (seen through its marker)? *)
+Fixpoint contb (t : dt) : bool :=
+  match t with
+  | TList _ | TMap _ | TNode _ _ => true
+  | TMark _ t' => contb t'
+  | _ => false
+  end.
+
+Section Main.
+  Variable uc : bytes -> option bytes.
+  Variable tc : bytes -> option (bytes * bytes).
+
+  Definition supp_list := fix go (ids : list bytes) (l : list dt) : option (list bytes) :=
+    match l with
+    | [] => Some ids
+    | x :: r => match supp uc tc ids PGen x with Some ids1 => go ids1 r | None => None end
+    end.
+  Definition supp_kvs := fix go (ids : list bytes) (l : list (dt * dt)) : option (list bytes) :=
+    match l with
+    | [] => Some ids
+    | (k, v) :: r =>
+      match supp uc tc ids PKey k with
+      | Some ids1 => match supp uc tc ids1 PGen v with Some ids2 => go ids2 r | None => None end
+      | None => None
+      end
+    end.
+  Definition erase_kvs := fix go (env : denv) (l : list (dv * dv)) : option (list (dv * dv) * denv) :=
+    match l with
+    | [] => Some ([], env)
+    | (k, v) :: r =>
+      match erase [] env k with
+      | Some (k', e1) =>
+        match erase [] e1 v with
+        | Some (v', e2) => match go e2 r with Some (r', e3) => Some ((k', v') :: r', e3) | None => None end
+        | None => None
+        end
+      | None => None
+      end
+    end.
+
+  Lemma supp_TList ids p l : supp uc tc ids p (TList l) = if is_key p then None else supp_list ids l.
+  Proof. reflexivity. Qed.
+  Lemma supp_TNode ids p v ch :
+    supp uc tc ids p (TNode v ch) =
+    if is_key p then None
+    else match supp uc tc ids PNodeVal v with Some ids1 => supp_list ids1 ch | None => None end.
+  Proof. reflexivity. Qed.
+  Lemma supp_TMap ids p kvs :
+    supp uc tc ids p (TMap kvs) =
+    if is_key p then None
+    else if negb (match omap2 (key_data) (map fst kvs) with Some ds => dkeys_distinct ds | None => false end) then None
+    else supp_kvs ids kvs.
+  Proof. reflexivity. Qed.
+  Lemma erase_DMap env kvs :
+    erase [] env (DMap kvs) = match erase_kvs env kvs with Some (l', e) => Some (DMap l', e) | None => None end.
+  Proof. reflexivity. Qed.
+
+  (* what running the events of one value does *)
+  Definition value_ok (t : dt) : Prop :=
+    forall ids p ids', supp uc tc ids p t = Some ids' ->
+    forall mk st base d,
+      stack st = mkframes mk false ++ base ->
+      (pos_of base = PKey -> p = PKey) ->
+      (mk = None -> pos_of base = PNodeVal -> p = PNodeVal) ->
+      (mk <> None -> node_top base = true -> is_container t = true) ->
+      (mk <> None -> match t with TMark _ _ | TRef _ => False | _ => True end) ->
+      (top_is_ftop base = true -> ids = []) ->
+      ready base (tobj st) = true ->
+      pending st = [] ->
+      ids = map fst (marked st) ->
+      env_clean (marked st) ->
+      sem t = Some d ->
+      (forall id, mk = Some id -> mem_id id ids' = false /\ mem_id id ids = false) ->
+      exists st' v m1,
+        exec uc tc st (flat t) = ROk st' /\
+        put v (contb t) base (tobj st) = Some (stack st', tobj st') /\
+        marked st' = mkentry mk v ++ m1 /\ map fst m1 = ids' /\ env_clean m1 /\
+        erase [] (env_data (marked st)) d = Some (to_dv v, env_data m1) /\
+        has_hole v = false /\ pending st' = [] /\
+        (p = PKey -> keyval v = true).
+
+  Lemma event_dv_erase e d env : event_dv e = Some d -> erase [] env d = Some (d, env).
+  Proof.
+    destruct e; cbn [event_dv]; intro H; try discriminate;
+      try (inversion H; subst; reflexivity).
+    - inversion H; subst. destruct (n =? 0); reflexivity.
+    - destruct v; inversion H; subst; reflexivity.
+    - inversion H; subst. unfold float_dv. destruct (f64_is_nan bits); reflexivity.
+    - destruct v; inversion H; subst; reflexivity.
+    - inversion H; subst. destruct d0; reflexivity.
+    - destruct v as [d0|]; inversion H; subst; [destruct d0|]; reflexivity.
+    - inversion H; subst. unfold array_dv.
+      destruct (t =? AT_String); [reflexivity|]. destruct (t =? AT_ResourceID); [reflexivity|].
+      destruct (t =? AT_ReferenceRemote); reflexivity.
+    - inversion H; subst. unfold array_dv.
+      destruct (t =? AT_String); [reflexivity|]. destruct (t =? AT_ResourceID); [reflexivity|].
+      destruct (t =? AT_ReferenceRemote); reflexivity.
+  Qed.
+
+  Lemma node_top_false (mk : option bytes) base t :
+    (mk <> None -> node_top base = true -> is_container t = true) ->
+    is_container t = false -> mk <> None -> node_top base = false.
+  Proof.
+    intros H Hc Hm. destruct (node_top base) eqn:E; [|reflexivity].
+    rewrite (H Hm eq_refl) in Hc. discriminate.
+  Qed.
+
+  Lemma value_leaf e : value_ok (TLeaf e).
+  Proof.
+    intros ids p ids' Hs mk st base d Hst Hk Hn Hnode Hnm Hft Hrdy Hp Hids Hcl Hsem Hfresh.
+    cbn [supp] in Hs. destruct (leaf_ok uc tc p e) eqn:Hl; [|discriminate]. inversion Hs; subst ids'.
+    destruct (leaf_conv uc tc p e Hl) as [sc [dd [Hsc [Hdv Hconv]]]].
+    cbn [sem] in Hsem. rewrite Hdv in Hsem. inversion Hsem; subst dd.
+    destruct (Hconv (next st)) as [x [Hc [Hd [Hh Hkv]]]].
+    destruct (ready_put base (tobj st) x false Hrdy) as [s' [t' Hput]].
+    destruct (scalar_arrival uc tc sc x mk base st s' t' Hst Hp Hc Hput) as [st' [Hon [Hs' [Ht' [Hm' Hp']]]]].
+    { apply (node_top_false mk base (TLeaf e) Hnode eq_refl). }
+    { intros id Hid. destruct (Hfresh id Hid) as [_ Hf]. rewrite Hids in Hf. exact Hf. }
+    exists st', x, (marked st). split.
+    { cbn [flat exec]. rewrite (step_value uc tc e sc st Hsc), Hon. reflexivity. }
+    split. { cbn [contb]. rewrite Hs', Ht'. exact Hput. }
+    split. { exact Hm'. }
+    split. { symmetry. exact Hids. }
+    split. { exact Hcl. }
+    split. { rewrite Hd. apply (event_dv_erase e d _ Hdv). }
+    split. { exact Hh. }
+    split. { exact Hp'. }
+    exact Hkv.
+  Qed.
+
+  Lemma chunked_leaf p b body :
+    chunked_ok uc p b body = true ->
+    exists data sc d,
+      chunked_data body = Some data /\ sem (TChunked b body) = Some d /\
+      (forall st, fire uc tc (set_chunk st data 0 false (abegin_cb b))
+                  = on_scalar uc tc sc (set_chunk st data 0 false (abegin_cb b))) /\
+      (forall env, erase [] env d = Some (d, env)) /\
+      forall n, exists x, conv uc tc n sc = Some x /\ to_dv x = d /\ has_hole x = false /\
+                          (p = PKey -> keyval x = true).
+  Proof.
+    unfold chunked_ok. destruct (chunked_data body) as [data|] eqn:Hcd; [|discriminate].
+    destruct (chunk_data 1 body 0 false []) as [data'|] eqn:Hck; [|discriminate].
+    intro H. apply andb_true_iff in H as [He H]. apply bytes_eqb_eq in He. subst data'.
+    destruct b as [t|mt|t ct]; [| |discriminate].
+    - (* array *)
+      assert (Hgen : forall T, t = T -> abegin_elem_bytes (ABArray T) = 1 -> elem_bits T =? 0 = false ->
+                array_ok uc T data = true -> array_dv T data = array_dv T data ->
+                (is_key p = true -> T = AT_String) ->
+                exists data0 sc d,
+                  Some data = Some data0 /\ sem (TChunked (ABArray t) body) = Some d /\
+                  (forall st, fire uc tc (set_chunk st data0 0 false (abegin_cb (ABArray t)))
+                              = on_scalar uc tc sc (set_chunk st data0 0 false (abegin_cb (ABArray t)))) /\
+                  (forall env, erase [] env d = Some (d, env)) /\
+                  forall n, exists x, conv uc tc n sc = Some x /\ to_dv x = d /\ has_hole x = false /\
+                                      (p = PKey -> keyval x = true)).
+      { intros T HT Hw Hb Hok _ Hkey. subst t.
+        exists data, (SArr T data), (array_dv T data).
+        split; [reflexivity|]. split.
+        { cbn [sem]. rewrite Hw, Hck. reflexivity. }
+        split. { intro st. cbn [fire ccb set_chunk abegin_cb]. rewrite Hb. reflexivity. }
+        split. { intro env. apply (event_dv_erase (EArray T 0 data)). reflexivity. }
+        intro n. destruct (array_conv uc tc T data n Hok) as [x [Hc [Hd Hh]]].
+        exists x. split; [exact Hc|]. split; [exact Hd|]. split; [exact Hh|].
+        intro Hp. subst p. rewrite (Hkey eq_refl) in Hc. cbn in Hc. inversion Hc; subst. reflexivity. }
+      destruct (is_key p) eqn:Hkp.
+      + apply N.eqb_eq in H. apply (Hgen AT_String H); reflexivity.
+      + apply orb_true_iff in H as [H|H]; [apply orb_true_iff in H as [H|H]|].
+        * apply N.eqb_eq in H. apply (Hgen AT_String H); reflexivity.
+        * apply N.eqb_eq in H. apply (Hgen AT_Uint8 H); try reflexivity. intro Hx; congruence.
+        * apply andb_true_iff in H as [H Hu]. apply N.eqb_eq in H.
+          apply (Hgen AT_ResourceID H); try reflexivity; [|intro Hx; congruence].
+          unfold array_ok. rewrite Hu. reflexivity.
+    - (* media *)
+      apply andb_true_iff in H as [Hk Hmt]. apply negb_true_iff in Hk.
+      exists data, (SMedia mt data), (DMedia mt data).
+      split; [reflexivity|]. split.
+      { cbn [sem abegin_elem_bytes]. rewrite Hck. reflexivity. }
+      split. { intro st. reflexivity. }
+      split. { intro env. reflexivity. }
+      intro n. eexists. split; [reflexivity|]. split; [reflexivity|]. split; [reflexivity|].
+      intro Hp. subst p. discriminate.
+  Qed.
+
+  Lemma value_chunked b body : value_ok (TChunked b body).
+  Proof.
+    intros ids p ids' Hs mk st base d Hst Hk Hn Hnode Hnm Hft Hrdy Hp Hids Hcl Hsem Hfresh.
+    cbn [supp] in Hs. destruct (chunked_ok uc p b body) eqn:Hl; [|discriminate]. inversion Hs; subst ids'.
+    destruct (chunked_leaf p b body Hl) as [data [sc [dd [Hcd [Hsm [Hfire [Her Hconv]]]]]]].
+    rewrite Hsm in Hsem. inversion Hsem; subst dd.
+    set (st1 := set_chunk st data 0 false (abegin_cb b)).
+    destruct (Hconv (next st1)) as [x [Hc [Hd [Hh Hkv]]]].
+    destruct (ready_put base (tobj st) x false Hrdy) as [s' [t' Hput]].
+    destruct (scalar_arrival uc tc sc x mk base st1 s' t') as [st' [Hon [Hs' [Ht' [Hm' Hp']]]]];
+      try assumption.
+    { apply (node_top_false mk base (TChunked b body) Hnode eq_refl). }
+    { intros id Hid. destruct (Hfresh id Hid) as [_ Hf]. rewrite Hids in Hf. exact Hf. }
+    exists st', x, (marked st). split.
+    { cbn [flat]. rewrite (chunked_exec uc tc b body data st Hcd). rewrite Hfire. exact Hon. }
+    split. { cbn [contb]. rewrite Hs', Ht'. exact Hput. }
+    split. { exact Hm'. }
+    split. { symmetry. exact Hids. }
+    split. { exact Hcl. }
+    split. { rewrite Hd. apply Her. }
+    split. { exact Hh. }
+    split. { exact Hp'. }
+    exact Hkv.
+  Qed.
+
+  Lemma value_ref id : value_ok (TRef id).
+  Proof.
+    intros ids p ids' Hs mk st base d Hst Hk Hn Hnode Hnm Hft Hrdy Hp Hids Hcl Hsem Hfresh.
+    cbn [supp] in Hs. destruct (is_key p) eqn:Hkp; [discriminate|].
+    destruct (mem_id id ids) eqn:Hmem; [|discriminate]. inversion Hs; subst ids'.
+    destruct mk as [mid|]; [exfalso; apply Hnm; discriminate|]. cbn [mkframes app] in Hst.
+    assert (Hnt : top_is_ftop base = false).
+    { destruct (top_is_ftop base) eqn:E; [|reflexivity]. rewrite (Hft eq_refl) in Hmem. discriminate. }
+    rewrite Hids in Hmem. destruct (lookup_mem_id id (marked st) Hmem) as [v Hl].
+    pose proof (lookup_clean id (marked st) v Hcl Hl) as Hh.
+    destruct (ready_put base (tobj st) v false Hrdy) as [s' [t' Hput]].
+    destruct base as [|fr r]; [discriminate|].
+    destruct (ref_arrival uc tc id v fr r st s' t' Hst Hl Hh) as [st' [Hstep [Hs' [Ht' [Hm' Hp']]]]].
+    { destruct fr; try exact I. discriminate. }
+    { exact Hput. }
+    { destruct fr; try exact I. destruct want_value; [exact I|].
+      assert (Hpk : p = PKey) by (apply Hk; reflexivity). subst p. discriminate. }
+    cbn [sem] in Hsem. inversion Hsem; subst d.
+    exists st', v, (marked st). split.
+    { cbn [flat exec]. rewrite Hstep. reflexivity. }
+    split. { cbn [contb]. rewrite Hs', Ht'. exact Hput. }
+    split. { cbn [mkentry app]. exact Hm'. }
+    split. { symmetry. exact Hids. }
+    split. { exact Hcl. }
+    split. { cbn [erase]. rewrite lookup_env_data, Hl. reflexivity. }
+    split. { exact Hh. }
+    split. { rewrite Hp'. exact Hp. }
+    intro Hpk. subst p. discriminate.
+  Qed.
+
+  Lemma contb_is_container t :
+    match t with TMark _ _ | TRef _ => False | _ => True end -> contb t = is_container t.
+  Proof. destruct t; intro H; try reflexivity; contradiction. Qed.
+
+  Lemma value_mark id t : value_ok t -> value_ok (TMark id t).
+  Proof.
+    intros IH ids p ids' Hs mk st base d Hst Hk Hn Hnode Hnm Hft Hrdy Hp Hids Hcl Hsem Hfresh.
+    destruct mk as [mid|]; [exfalso; apply Hnm; discriminate|]. cbn [mkframes app] in Hst.
+    cbn [supp] in Hs. destruct (mem_id id ids) eqn:Hfr0; [discriminate|].
+    assert (Hshape : match t with TMark _ _ | TRef _ => False | _ => True end).
+    { destruct t; try exact I; discriminate. }
+    set (p' := if is_key p then PKey else PGen) in *.
+    assert (Hs2 : match p, is_container t with
+                  | PNodeVal, false => None
+                  | _, _ => match supp uc tc ids p' t with
+                            | Some ids1 => if mem_id id ids1 then None else Some (id :: ids1)
+                            | None => None
+                            end
+                  end = Some ids').
+    { destruct t; try contradiction; exact Hs. }
+    clear Hs.
+    assert (Hcont : node_top base = true -> is_container t = true).
+    { intro Hnt. destruct base as [|fr r]; [discriminate|]. destruct fr; try discriminate.
+      destruct children_mode; [unfold ready in Hrdy; discriminate|].
+      assert (Hpn : p = PNodeVal) by (apply Hn; reflexivity). subst p.
+      destruct (is_container t); [reflexivity|discriminate]. }
+    assert (Hs3 : exists ids1, supp uc tc ids p' t = Some ids1 /\ mem_id id ids1 = false /\ ids' = id :: ids1).
+    { destruct p, (is_container t) eqn:Ec; try discriminate;
+        (destruct (supp uc tc ids p' t) as [ids1|]; [|discriminate];
+         destruct (mem_id id ids1) eqn:Em; [discriminate|]; inversion Hs2; subst;
+         exists ids1; auto). }
+    destruct Hs3 as [ids1 [Hsup [Hfr1 Hids']]]. subst ids'.
+    cbn [sem] in Hsem. destruct (sem t) as [d'|] eqn:Hsem'; [|discriminate]. inversion Hsem; subst d.
+    set (st0 := set_stack st (FMarker id false :: stack st)).
+    assert (A1 : stack st0 = mkframes (Some id) false ++ base) by (cbn; rewrite Hst; reflexivity).
+    assert (A2 : pos_of base = PKey -> p' = PKey).
+    { intro Hpk. subst p'. rewrite (Hk Hpk). reflexivity. }
+    assert (A3 : Some id = None -> pos_of base = PNodeVal -> p' = PNodeVal) by discriminate.
+    assert (A4 : Some id <> None -> node_top base = true -> is_container t = true) by (intros _; exact Hcont).
+    assert (A5 : Some id <> None -> match t with TMark _ _ | TRef _ => False | _ => True end)
+      by (intros _; exact Hshape).
+    assert (A12 : forall id0, Some id = Some id0 -> mem_id id0 ids1 = false /\ mem_id id0 ids = false).
+    { intros id0 Hid0. inversion Hid0; subst id0. split; assumption. }
+    destruct (IH ids p' ids1 Hsup (Some id) st0 base d' A1 A2 A3 A4 A5 Hft Hrdy Hp Hids Hcl Hsem' A12)
+      as [st' [v [m1 [Hex [Hput [Hm [Hf [Hc1 [Her [Hh [Hp' Hkv]]]]]]]]]]].
+    exists st', v, ((id, v) :: m1). split.
+    { cbn [flat exec step rbind]. exact Hex. }
+    split.
+    { cbn [contb]. rewrite (contb_is_container t Hshape) in Hput |- *.
+      destruct (top_is_ftop base) eqn:Etop.
+      - exact Hput.
+      - exact Hput. }
+    split. { cbn [mkentry app] in *. exact Hm. }
+    split. { cbn [map fst]. rewrite Hf. reflexivity. }
+    split. { constructor; [exact Hh|exact Hc1]. }
+    split. { cbn [erase]. change (marked st0) with (marked st) in Her. rewrite Her. reflexivity. }
+    split. { exact Hh. }
+    split. { exact Hp'. }
+    intro Hpk. apply Hkv. subst p. reflexivity.
+  Qed.
+
+  Lemma ready_plain fr r tob : ready (fr :: r) tob = true -> plain fr = true.
+  Proof.
+    unfold ready. destruct fr; cbn [put plain]; try discriminate; try reflexivity.
+    destruct key, want_value, rec; try discriminate; reflexivity.
+  Qed.
+
+  Lemma recv_end_slice above l below st :
+    recv_end above (FSlice l) below st = notify_done (UList l) (set_stack st (tl (above ++ FSlice l :: below))).
+  Proof. destruct below; reflexivity. Qed.
+
+  Lemma recv_end_map above id kvs key w rc below st :
+    recv_end above (FMap id kvs key w rc) below st =
+    notify_done (UMap id kvs) (set_stack st (tl (above ++ FMap id kvs key w rc :: below))).
+  Proof. destruct below; reflexivity. Qed.
+
+  Lemma has_hole_list vs : Forall (fun v => has_hole v = false) vs -> existsb has_hole vs = false.
+  Proof.
+    induction 1 as [|v r Hv _ IH]; [reflexivity|]. cbn [existsb]. rewrite Hv, IH. reflexivity.
+  Qed.
+
+  (* value_ok without a marker in front *)
+  Lemma use_value t : value_ok t ->
+    forall ids p ids' st base d,
+      supp uc tc ids p t = Some ids' -> stack st = base ->
+      (pos_of base = PKey -> p = PKey) -> (pos_of base = PNodeVal -> p = PNodeVal) ->
+      (top_is_ftop base = true -> ids = []) -> ready base (tobj st) = true ->
+      pending st = [] -> ids = map fst (marked st) -> env_clean (marked st) -> sem t = Some d ->
+      exists st' v,
+        exec uc tc st (flat t) = ROk st' /\
+        put v (contb t) base (tobj st) = Some (stack st', tobj st') /\
+        map fst (marked st') = ids' /\ env_clean (marked st') /\
+        erase [] (env_data (marked st)) d = Some (to_dv v, env_data (marked st')) /\
+        has_hole v = false /\ pending st' = [] /\ (p = PKey -> keyval v = true).
+  Proof.
+    intros H ids p ids' st base d Hs Hst Hk Hn Hft Hrdy Hp Hids Hcl Hsem.
+    assert (A1 : stack st = mkframes None false ++ base) by exact Hst.
+    assert (A3 : @None bytes = None -> pos_of base = PNodeVal -> p = PNodeVal) by (intros _; exact Hn).
+    assert (A4 : @None bytes <> None -> node_top base = true -> is_container t = true) by (intro X; contradiction).
+    assert (A5 : @None bytes <> None -> match t with TMark _ _ | TRef _ => False | _ => True end)
+      by (intro X; contradiction).
+    assert (A12 : forall id, @None bytes = Some id -> mem_id id ids' = false /\ mem_id id ids = false)
+      by discriminate.
+    destruct (H ids p ids' Hs None st base d A1 Hk A3 A4 A5 Hft Hrdy Hp Hids Hcl Hsem A12)
+      as [st' [v [m1 [Hex [Hput [Hm [Hf [Hc1 [Her [Hh [Hp' Hkv]]]]]]]]]]].
+    cbn [mkentry app] in Hm. subst m1.
+    exists st', v. repeat split; assumption.
+  Qed.
+
+  Lemma elems_run l : Forall value_ok l ->
+    forall ids ids' acc rest st ds,
+      supp_list ids l = Some ids' ->
+      stack st = FSlice acc :: rest ->
+      pending st = [] -> ids = map fst (marked st) -> env_clean (marked st) ->
+      omap2 sem l = Some ds ->
+      exists st' vs,
+        exec uc tc st (flat_map flat l) = ROk st' /\
+        stack st' = FSlice (acc ++ vs) :: rest /\ tobj st' = tobj st /\
+        map fst (marked st') = ids' /\ env_clean (marked st') /\
+        erase_list (erase []) (env_data (marked st)) ds = Some (map to_dv vs, env_data (marked st')) /\
+        Forall (fun v => has_hole v = false) vs /\ pending st' = [].
+  Proof.
+    induction 1 as [|x r Hx _ IH]; intros ids ids' acc rest st ds Hs Hst Hp Hids Hcl Hsem.
+    - cbn [supp_list] in Hs. inversion Hs; subst ids'. cbn [omap2] in Hsem. inversion Hsem; subst ds.
+      exists st, []. cbn [flat_map exec]. rewrite app_nil_r.
+      repeat split; auto.
+    - cbn [supp_list] in Hs. destruct (supp uc tc ids PGen x) as [ids1|] eqn:Hsx; [|discriminate].
+      cbn [omap2] in Hsem. destruct (sem x) as [dx|] eqn:Hdx; [|discriminate].
+      destruct (omap2 sem r) as [dr|] eqn:Hdr; [|discriminate]. inversion Hsem; subst ds.
+      destruct (use_value x Hx ids PGen ids1 st (FSlice acc :: rest) dx Hsx Hst) as
+          [st1 [v [Hex [Hput [Hf [Hc1 [Her [Hh [Hp1 _]]]]]]]]]; try assumption; try discriminate; try reflexivity.
+      cbn [put] in Hput. inversion Hput as [[Hs1 Ht1]].
+      destruct (IH ids1 ids' (acc ++ [v]) rest st1 dr Hs (eq_sym Hs1) Hp1 (eq_sym Hf) Hc1 eq_refl) as
+          [st2 [vs [Hex2 [Hs2 [Ht2 [Hf2 [Hc2 [Her2 [Hh2 Hp2]]]]]]]]].
+      exists st2, (v :: vs). split.
+      { cbn [flat_map]. rewrite (exec_app_ok uc tc _ _ st st1 Hex). exact Hex2. }
+      split. { rewrite Hs2, <- app_assoc. reflexivity. }
+      split. { rewrite Ht2. symmetry. exact Ht1. }
+      split. { exact Hf2. }
+      split. { exact Hc2. }
+      split. { cbn [erase_list]. rewrite Her. rewrite Her2. reflexivity. }
+      split. { constructor; assumption. }
+      exact Hp2.
+  Qed.
+
+  Lemma fresh_after mk (ids ids' : list bytes) :
+    (forall id, mk = Some id -> mem_id id ids' = false /\ mem_id id ids = false) ->
+    forall (m : list (bytes * uval)), map fst m = ids' -> forall id, mk = Some id -> mem_id id (map fst m) = false.
+  Proof. intros H m Hm id Hid. rewrite Hm. apply (H id Hid). Qed.
+
+  Lemma value_list l : Forall value_ok l -> value_ok (TList l).
+  Proof.
+    intros IHl ids p ids' Hs mk st base d Hst Hk Hn Hnode Hnm Hft Hrdy Hp Hids Hcl Hsem Hfresh.
+    rewrite supp_TList in Hs. destruct (is_key p) eqn:Hkp; [discriminate|].
+    cbn [sem] in Hsem. destruct (omap2 sem l) as [ds|] eqn:Hds; [|discriminate]. inversion Hsem; subst d.
+    destruct base as [|fr r]; [discriminate|].
+    destruct (begin_container uc tc EList KList mk fr r st eq_refl Hst (ready_plain fr r _ Hrdy))
+      as [st1 [Hb [Hs1 [Ht1 [Hm1 Hp1]]]]].
+    cbn [new_frame] in Hs1.
+    destruct (elems_run l IHl ids ids' [] (mkframes mk true ++ fr :: r) st1 ds Hs Hs1)
+      as [st2 [vs [Hex2 [Hs2 [Ht2 [Hf2 [Hc2 [Her2 [Hh2 Hp2]]]]]]]]]; try congruence.
+    set (st3 := set_stack st2 (mkframes mk true ++ fr :: r)).
+    assert (Hhl : has_hole (UList vs) = false) by (apply has_hole_list; exact Hh2).
+    destruct (ready_put (fr :: r) (tobj st) (UList vs) true Hrdy) as [s' [t' Hput]].
+    destruct (finish_container (UList vs) mk (fr :: r) st3 s' t') as [st4 [Hnd [Hs4 [Ht4 [Hm4 Hp4]]]]];
+      try assumption; try reflexivity.
+    { change (tobj st3) with (tobj st2). rewrite Ht2, Ht1. exact Hput. }
+    { apply (fresh_after mk ids ids' Hfresh). exact Hf2. }
+    exists st4, (UList vs), (marked st2). split.
+    { cbn [flat exec]. rewrite Hb. cbn [rbind].
+      rewrite (exec_app_ok uc tc _ _ st1 st2 Hex2). cbn [exec step]. rewrite Hs2.
+      rewrite recv_end_slice. cbn [app tl]. fold st3. rewrite Hnd. reflexivity. }
+    split. { cbn [contb]. rewrite Hs4, Ht4. exact Hput. }
+    split. { exact Hm4. }
+    split. { exact Hf2. }
+    split. { exact Hc2. }
+    split. { cbn [erase to_dv]. rewrite Hm1 in Her2. rewrite Her2. reflexivity. }
+    split. { exact Hhl. }
+    split. { exact Hp4. }
+    intro Hpk. subst p. discriminate.
+  Qed.
+
+  Lemma value_node v ch : value_ok v -> Forall value_ok ch -> value_ok (TNode v ch).
+  Proof.
+    intros IHv IHch ids p ids' Hs mk st base d Hst Hk Hn Hnode Hnm Hft Hrdy Hp Hids Hcl Hsem Hfresh.
+    rewrite supp_TNode in Hs. destruct (is_key p) eqn:Hkp; [discriminate|].
+    destruct (supp uc tc ids PNodeVal v) as [ids1|] eqn:Hsv; [|discriminate].
+    cbn [sem] in Hsem. destruct (sem v) as [dvv|] eqn:Hdv; [|discriminate].
+    destruct (omap2 sem ch) as [ds|] eqn:Hds; [|discriminate]. inversion Hsem; subst d.
+    destruct base as [|fr r]; [discriminate|].
+    destruct (begin_container uc tc ENode KNode mk fr r st eq_refl Hst (ready_plain fr r _ Hrdy))
+      as [st1 [Hb [Hs1 [Ht1 [Hm1 Hp1]]]]].
+    cbn [new_frame] in Hs1.
+    set (rest := mkframes mk true ++ fr :: r) in *.
+    (* the node's value *)
+    destruct (use_value v IHv ids PNodeVal ids1 st1 (FNode false UNil :: rest) dvv Hsv Hs1)
+      as [st2 [xv [Hex2 [Hput2 [Hf2 [Hc2 [Her2 [Hh2 [Hp2 _]]]]]]]]];
+      try congruence; try reflexivity; try discriminate.
+    cbn [put] in Hput2. inversion Hput2 as [[Hs2 Ht2]].
+    (* the children *)
+    destruct (elems_run ch IHch ids1 ids' [] (FNode true xv :: rest) st2 ds Hs (eq_sym Hs2))
+      as [st3 [vs [Hex3 [Hs3 [Ht3 [Hf3 [Hc3 [Her3 [Hh3 Hp3]]]]]]]]]; try congruence.
+    set (st4 := set_stack st3 rest).
+    assert (Hhl : has_hole (UNode xv vs) = false).
+    { cbn [has_hole]. rewrite Hh2, (has_hole_list vs Hh3). reflexivity. }
+    destruct (ready_put (fr :: r) (tobj st) (UNode xv vs) true Hrdy) as [s' [t' Hput]].
+    destruct (finish_container (UNode xv vs) mk (fr :: r) st4 s' t') as [st5 [Hnd [Hs5 [Ht5 [Hm5 Hp5]]]]];
+      try assumption; try reflexivity.
+    { change (tobj st4) with (tobj st3). rewrite Ht3, <- Ht2, Ht1. exact Hput. }
+    { apply (fresh_after mk ids ids' Hfresh). exact Hf3. }
+    exists st5, (UNode xv vs), (marked st3). split.
+    { cbn [flat exec]. rewrite Hb. cbn [rbind].
+      rewrite (exec_app_ok uc tc _ _ st1 st2 Hex2).
+      rewrite (exec_app_ok uc tc _ _ st2 st3 Hex3). cbn [exec step]. rewrite Hs3.
+      rewrite recv_end_slice. cbn [app tl]. unfold notify_done. cbn [stack set_stack length done_to].
+      change (set_stack (set_stack st3 (FNode true xv :: rest)) rest) with st4.
+      unfold notify_done in Hnd. change (stack st4) with rest in Hnd. rewrite Hnd. reflexivity. }
+    split. { cbn [contb]. rewrite Hs5, Ht5. exact Hput. }
+    split. { exact Hm5. }
+    split. { exact Hf3. }
+    split. { exact Hc3. }
+    split. { cbn [erase to_dv]. rewrite Hm1 in Her2. rewrite Her2, Her3. reflexivity. }
+    split. { exact Hhl. }
+    split. { exact Hp5. }
+    intro Hpk. subst p. discriminate.
+  Qed.
+
+  (* ---- maps ---- *)
+  Lemma assoc_set_fresh k x kvs :
+    (forall k' x', In (k', x') kvs -> key_eqb k' k = false) -> assoc_set k x kvs = kvs ++ [(k, x)].
+  Proof.
+    induction kvs as [|[k' x'] r IH]; intro H; cbn [assoc_set app].
+    - reflexivity.
+    - rewrite (H k' x' (or_introl eq_refl)). rewrite IH; [reflexivity|].
+      intros k2 x2 Hin. apply (H k2 x2). right. exact Hin.
+  Qed.
+
+  Lemma dkeys_distinct_mid l1 x l2 :
+    dkeys_distinct (l1 ++ x :: l2) = true -> forall a, In a l1 -> dkey_eqb a x = false.
+  Proof.
+    induction l1 as [|y r IH]; intros H a Hin; [contradiction|].
+    cbn [app dkeys_distinct] in H. apply andb_true_iff in H as [Hy Hr].
+    destruct Hin as [Ha|Hin].
+    - subst y. apply negb_true_iff in Hy. rewrite existsb_app in Hy.
+      apply orb_false_iff in Hy as [_ Hy]. cbn [existsb] in Hy. apply orb_false_iff in Hy as [Hy _]. exact Hy.
+    - apply (IH Hr a Hin).
+  Qed.
+
+  Lemma key_leaf_erase k ids ids1 dk :
+    match k with TLeaf _ | TChunked _ _ => True | _ => False end ->
+    supp uc tc ids PKey k = Some ids1 -> sem k = Some dk ->
+    forall env, erase [] env dk = Some (dk, env).
+  Proof.
+    destruct k; try contradiction; intros _ Hs Hsem env.
+    - cbn [sem] in Hsem. apply (event_dv_erase e dk env Hsem).
+    - cbn [supp] in Hs. destruct (chunked_ok uc PKey b body) eqn:Hl; [|discriminate].
+      destruct (chunked_leaf PKey b body Hl) as [data [sc [dd [_ [Hsm [_ [Her _]]]]]]].
+      rewrite Hsm in Hsem. inversion Hsem; subst dd. apply Her.
+  Qed.
+
+  Lemma supp_key_shape k ids ids1 :
+    supp uc tc ids PKey k = Some ids1 ->
+    match k with
+    | TLeaf _ | TChunked _ _ => True
+    | TMark _ (TLeaf _) | TMark _ (TChunked _ _) => True
+    | _ => False
+    end.
+  Proof.
+    destruct k; try exact (fun _ => I); try (cbn [supp is_key]; discriminate).
+    cbn [supp is_key]. destruct (mem_id id ids); [discriminate|].
+    destruct k; try exact (fun _ => I); try discriminate;
+      try (cbn [supp is_key is_container]; discriminate).
+  Qed.
+
+  Lemma key_erase k ids ids1 dk kd :
+    supp uc tc ids PKey k = Some ids1 -> sem k = Some dk -> key_data k = Some kd ->
+    forall env d' e, erase [] env dk = Some (d', e) -> d' = kd.
+  Proof.
+    intros Hs Hsem Hkd env d' e Her. pose proof (supp_key_shape k ids ids1 Hs) as Hshape.
+    destruct k; try contradiction.
+    - cbn [key_data] in Hkd. rewrite Hsem in Hkd. inversion Hkd; subst kd.
+      rewrite (key_leaf_erase (TLeaf e0) ids ids1 dk I Hs Hsem env) in Her. inversion Her; reflexivity.
+    - cbn [key_data] in Hkd. rewrite Hsem in Hkd. inversion Hkd; subst kd.
+      rewrite (key_leaf_erase (TChunked b body) ids ids1 dk I Hs Hsem env) in Her. inversion Her; reflexivity.
+    - (* marked key *)
+      cbn [key_data] in Hkd. cbn [sem] in Hsem. rewrite Hkd in Hsem. inversion Hsem; subst dk.
+      cbn [supp is_key] in Hs. destruct (mem_id id ids); [discriminate|].
+      assert (Hin : exists ids2, supp uc tc ids PKey k = Some ids2).
+      { destruct k; try contradiction;
+          (destruct (supp uc tc ids PKey _) as [ids2|] eqn:E; [exists ids2; reflexivity|discriminate]). }
+      destruct Hin as [ids2 Hin].
+      assert (Hlf : match k with TLeaf _ | TChunked _ _ => True | _ => False end)
+        by (destruct k; try contradiction; exact I).
+      cbn [erase] in Her. rewrite (key_leaf_erase k ids ids2 kd Hlf Hin Hkd env) in Her.
+      inversion Her; reflexivity.
+  Qed.
+
+  Definition sem_kv (kv : dt * dt) : option (dv * dv) :=
+    match sem (fst kv), sem (snd kv) with Some a, Some b => Some (a, b) | _, _ => None end.
+  Definition kv_dv (kx : uval * uval) : dv * dv := (to_dv (fst kx), to_dv (snd kx)).
+
+  Lemma kvs_run kvs : Forall (fun kv => value_ok (fst kv) /\ value_ok (snd kv)) kvs ->
+    forall ids ids' id acc key0 rest st dkvs kds,
+      supp_kvs ids kvs = Some ids' ->
+      stack st = FMap id acc key0 false None :: rest ->
+      pending st = [] -> ids = map fst (marked st) -> env_clean (marked st) ->
+      omap2 sem_kv kvs = Some dkvs ->
+      omap2 key_data (map fst kvs) = Some kds ->
+      dkeys_distinct (map (fun kx => to_dv (fst kx)) acc ++ kds) = true ->
+      Forall (fun kx => keyval (fst kx) = true) acc ->
+      exists st' es key1,
+        exec uc tc st (flat_map (fun kv => flat (fst kv) ++ flat (snd kv)) kvs) = ROk st' /\
+        stack st' = FMap id (acc ++ es) key1 false None :: rest /\ tobj st' = tobj st /\
+        map fst (marked st') = ids' /\ env_clean (marked st') /\
+        erase_kvs (env_data (marked st)) dkvs = Some (map kv_dv es, env_data (marked st')) /\
+        Forall (fun kx => has_hole (fst kx) = false /\ has_hole (snd kx) = false) es /\ pending st' = [].
+  Proof.
+    induction 1 as [|[k v] r [Hk Hv] _ IH];
+      intros ids ids' id acc key0 rest st dkvs kds Hs Hst Hp Hids Hcl Hsem Hkds Hdis Hkv.
+    - cbn [supp_kvs] in Hs. inversion Hs; subst ids'. cbn [omap2] in Hsem. inversion Hsem; subst dkvs.
+      exists st, [], key0. cbn [flat_map exec]. rewrite app_nil_r. repeat split; auto.
+    - cbn [fst snd] in Hk, Hv.
+      cbn [supp_kvs] in Hs. destruct (supp uc tc ids PKey k) as [ids1|] eqn:Hsk; [|discriminate].
+      destruct (supp uc tc ids1 PGen v) as [ids2|] eqn:Hsv; [|discriminate].
+      cbn [omap2] in Hsem. unfold sem_kv at 1 in Hsem. cbn [fst snd] in Hsem.
+      destruct (sem k) as [dk|] eqn:Hdk; [|discriminate]. destruct (sem v) as [dvv|] eqn:Hdv; [|discriminate].
+      destruct (omap2 sem_kv r) as [dr|] eqn:Hdr; [|discriminate]. inversion Hsem; subst dkvs.
+      cbn [map fst omap2] in Hkds. destruct (key_data k) as [kd|] eqn:Hkd; [|discriminate].
+      destruct (omap2 key_data (map fst r)) as [kdr|] eqn:Hkdr; [|discriminate]. inversion Hkds; subst kds.
+      (* the key *)
+      destruct (use_value k Hk ids PKey ids1 st (FMap id acc key0 false None :: rest) dk Hsk Hst)
+        as [st1 [xk [Hex1 [Hput1 [Hf1 [Hc1 [Her1 [Hh1 [Hp1 Hkv1]]]]]]]]];
+        try assumption; try reflexivity; try discriminate.
+      { unfold ready. cbn [put]. destruct key0; reflexivity. }
+      specialize (Hkv1 eq_refl).
+      assert (Hs1 : stack st1 = FMap id acc (Some xk) true None :: rest /\ tobj st1 = tobj st).
+      { cbn [put] in Hput1. destruct key0; inversion Hput1; auto. }
+      destruct Hs1 as [Hs1 Ht1].
+      pose proof (key_erase k ids ids1 dk kd Hsk Hdk Hkd _ _ _ Her1) as Hxk.
+      (* the value *)
+      pose proof (keyval_hashable xk Hkv1) as Hhash.
+      destruct (use_value v Hv ids1 PGen ids2 st1 (FMap id acc (Some xk) true None :: rest) dvv Hsv Hs1)
+        as [st2 [xv [Hex2 [Hput2 [Hf2 [Hc2 [Her2 [Hh2 [Hp2 _]]]]]]]]];
+        try assumption; try reflexivity; try discriminate; try congruence.
+      { unfold ready. cbn [put]. rewrite Hhash. reflexivity. }
+      cbn [put] in Hput2. rewrite Hhash in Hput2. inversion Hput2 as [[Hs2 Ht2]].
+      assert (Hset : assoc_set xk xv acc = acc ++ [(xk, xv)]).
+      { apply assoc_set_fresh. intros k' x' Hin.
+        destruct (key_eqb k' xk) eqn:E; [|reflexivity]. exfalso.
+        assert (Hk' : keyval k' = true).
+        { rewrite Forall_forall in Hkv. apply (Hkv (k', x') Hin). }
+        pose proof (keyval_eq k' xk Hk' Hkv1 E) as Hd.
+        rewrite Hxk in Hd.
+        assert (Hd' : dkey_eqb (to_dv k') kd = false).
+        { apply (dkeys_distinct_mid _ kd kdr Hdis).
+          apply in_map_iff. exists (k', x'). split; [reflexivity|exact Hin]. }
+        congruence. }
+      rewrite Hset in Hs2.
+      destruct (IH ids2 ids' id (acc ++ [(xk, xv)]) (Some xk) rest st2 dr kdr Hs (eq_sym Hs2) Hp2 (eq_sym Hf2) Hc2
+                   eq_refl eq_refl)
+        as [st3 [es [key1 [Hex3 [Hs3 [Ht3 [Hf3 [Hc3 [Her3 [Hh3 Hp3]]]]]]]]]].
+      { rewrite map_app. cbn [map fst]. rewrite Hxk, <- app_assoc. exact Hdis. }
+      { apply Forall_app. split; [exact Hkv|]. constructor; [exact Hkv1|constructor]. }
+      exists st3, ((xk, xv) :: es), key1. split.
+      { cbn [flat_map fst snd]. rewrite <- app_assoc.
+        rewrite (exec_app_ok uc tc _ _ st st1 Hex1).
+        rewrite (exec_app_ok uc tc _ _ st1 st2 Hex2). exact Hex3. }
+      split. { rewrite Hs3, <- app_assoc. reflexivity. }
+      split. { rewrite Ht3, <- Ht2. exact Ht1. }
+      split. { exact Hf3. }
+      split. { exact Hc3. }
+      split. { cbn [erase_kvs]. rewrite Her1, Her2, Her3. reflexivity. }
+      split. { constructor; [split; assumption|exact Hh3]. }
+      exact Hp3.
+  Qed.
+
+  Lemma omap2_sem_kv kvs :
+    omap2 (fun '(k, v) => match sem k, sem v with Some a, Some b => Some (a, b) | _, _ => None end) kvs
+    = omap2 sem_kv kvs.
+  Proof.
+    induction kvs as [|[k v] r IH]; [reflexivity|]. cbn [omap2]. unfold sem_kv at 1. cbn [fst snd].
+    rewrite IH. reflexivity.
+  Qed.
+
+  Lemma flat_map_kv kvs :
+    flat_map (fun '(k, v) => flat k ++ flat v) kvs = flat_map (fun kv : dt * dt => flat (fst kv) ++ flat (snd kv)) kvs.
+  Proof. induction kvs as [|[k v] r IH]; [reflexivity|]. cbn [flat_map fst snd]. rewrite IH. reflexivity. Qed.
+
+  Lemma has_hole_kvs es :
+    Forall (fun kx : uval * uval => has_hole (fst kx) = false /\ has_hole (snd kx) = false) es ->
+    existsb (fun '(a, b) => has_hole a || has_hole b) es = false.
+  Proof.
+    induction 1 as [|[a b] r [Ha Hb] _ IH]; [reflexivity|]. cbn [existsb fst snd] in *.
+    rewrite Ha, Hb, IH. reflexivity.
+  Qed.
+
+  Lemma map_kv_dv es : map (fun '(k, x) => (to_dv k, to_dv x)) es = map kv_dv es.
+  Proof. induction es as [|[a b] r IH]; [reflexivity|]. cbn [map]. rewrite IH. reflexivity. Qed.
+
+  Lemma value_map kvs : Forall (fun kv => value_ok (fst kv) /\ value_ok (snd kv)) kvs -> value_ok (TMap kvs).
+  Proof.
+    intros IHl ids p ids' Hs mk st base d Hst Hk Hn Hnode Hnm Hft Hrdy Hp Hids Hcl Hsem Hfresh.
+    rewrite supp_TMap in Hs. destruct (is_key p) eqn:Hkp; [discriminate|].
+    destruct (omap2 key_data (map fst kvs)) as [kds|] eqn:Hkds; [|discriminate].
+    destruct (dkeys_distinct kds) eqn:Hdis; [|discriminate]. cbn [negb] in Hs.
+    cbn [sem] in Hsem. rewrite omap2_sem_kv in Hsem.
+    destruct (omap2 sem_kv kvs) as [ds|] eqn:Hds; [|discriminate]. inversion Hsem; subst d.
+    destruct base as [|fr r]; [discriminate|].
+    destruct (begin_container uc tc EMap KMap mk fr r st eq_refl Hst (ready_plain fr r _ Hrdy))
+      as [st1 [Hb [Hs1 [Ht1 [Hm1 Hp1]]]]].
+    cbn [new_frame] in Hs1.
+    set (rest := mkframes mk true ++ fr :: r) in *.
+    assert (Hp1' : pending st1 = []) by congruence.
+    assert (Hids' : ids = map fst (marked st1)) by congruence.
+    assert (Hcl' : env_clean (marked st1)) by (rewrite Hm1; exact Hcl).
+    destruct (kvs_run kvs IHl ids ids' (next st + 1) [] None rest st1 ds kds Hs Hs1 Hp1' Hids' Hcl' Hds Hkds
+                      Hdis (Forall_nil _))
+      as [st2 [es [key1 [Hex2 [Hs2 [Ht2 [Hf2 [Hc2 [Her2 [Hh2 Hp2]]]]]]]]]].
+    cbn [app] in Hs2.
+    set (st3 := set_stack st2 rest).
+    set (mv := UMap (next st + 1) es).
+    assert (Hhl : has_hole mv = false) by (apply has_hole_kvs; exact Hh2).
+    destruct (ready_put (fr :: r) (tobj st) mv true Hrdy) as [s' [t' Hput]].
+    destruct (finish_container mv mk (fr :: r) st3 s' t') as [st4 [Hnd [Hs4 [Ht4 [Hm4 Hp4]]]]];
+      try assumption; try reflexivity.
+    { change (tobj st3) with (tobj st2). rewrite Ht2, Ht1. exact Hput. }
+    { apply (fresh_after mk ids ids' Hfresh). exact Hf2. }
+    exists st4, mv, (marked st2). split.
+    { cbn [flat exec]. rewrite Hb. cbn [rbind]. rewrite flat_map_kv.
+      rewrite (exec_app_ok uc tc _ _ st1 st2 Hex2). cbn [exec step]. rewrite Hs2.
+      rewrite recv_end_map. cbn [app tl]. fold st3. fold mv. rewrite Hnd. reflexivity. }
+    split. { cbn [contb]. rewrite Hs4, Ht4. exact Hput. }
+    split. { exact Hm4. }
+    split. { exact Hf2. }
+    split. { exact Hc2. }
+    split. { rewrite erase_DMap. unfold mv. cbn [to_dv]. rewrite Hm1 in Her2. rewrite Her2, map_kv_dv. reflexivity. }
+    split. { exact Hhl. }
+    split. { exact Hp4. }
+    intro Hpk. subst p. discriminate.
+  Qed.
+
+  (* every tree: unsupported constructs make [supp] fail, so nothing is claimed about them *)
+  Theorem all_values t : value_ok t.
+  Proof.
+    induction t using dt_ind2.
+    - apply value_leaf.
+    - apply value_chunked.
+    - apply value_list. assumption.
+    - apply value_map. assumption.
+    - apply value_node; assumption.
+    - intros ids p ids' Hs. discriminate.
+    - intros ids p ids' Hs. discriminate.
+    - apply value_mark. assumption.
+    - apply value_ref.
+  Qed.
+End Main.
+
+(* ------------------------------------------------------------------ *)
+(* Induction on values                                                  *)
+(* ------------------------------------------------------------------ *)
+
+Section UvalInd.
+  Variable P : uval -> Prop.
+  Hypothesis Hscalar : forall v, match v with UList _ | UMap _ _ | UNode _ _ | UEdge _ _ _ => False | _ => True end -> P v.
+  Hypothesis Hlist : forall l, Forall P l -> P (UList l).
+  Hypothesis Hmap : forall id kvs, Forall (fun kx => P (fst kx) /\ P (snd kx)) kvs -> P (UMap id kvs).
+  Hypothesis Hnode : forall a ch, P a -> Forall P ch -> P (UNode a ch).
+  Hypothesis Hedge : forall a b c, P a -> P b -> P c -> P (UEdge a b c).
+
+  Fixpoint uval_ind2 (v : uval) : P v :=
+    let all := fix all (l : list uval) : Forall P l :=
+      match l with
+      | [] => Forall_nil P
+      | x :: r => Forall_cons x (uval_ind2 x) (all r)
+      end in
+    match v with
+    | UList l => Hlist l (all l)
+    | UMap id kvs =>
+        Hmap id kvs ((fix allp (l : list (uval * uval)) : Forall (fun kx => P (fst kx) /\ P (snd kx)) l :=
+                        match l with
+                        | [] => Forall_nil _
+                        | (k, x) :: r => Forall_cons (k, x) (conj (uval_ind2 k) (uval_ind2 x)) (allp r)
+                        end) kvs)
+    | UNode a ch => Hnode a ch (uval_ind2 a) (all ch)
+    | UEdge a b c => Hedge a b c (uval_ind2 a) (uval_ind2 b) (uval_ind2 c)
+    | v' => Hscalar v' I
+    end.
+End UvalInd.
+
+Lemma to_dv_dehole v : to_dv (dehole v) = to_dv v.
+Proof.
+  induction v using uval_ind2.
+  - destruct v; try contradiction; reflexivity.
+  - cbn [dehole to_dv]. f_equal. rewrite map_map. apply map_ext_in.
+    intros x Hx. rewrite Forall_forall in H. apply H. exact Hx.
+  - cbn [dehole to_dv]. f_equal. rewrite map_map. apply map_ext_in.
+    intros [k x] Hx. rewrite Forall_forall in H. destruct (H (k, x) Hx) as [Hk Hv]. cbn [fst snd] in *.
+    rewrite Hk, Hv. reflexivity.
+  - cbn [dehole to_dv]. rewrite IHv. f_equal. rewrite map_map. apply map_ext_in.
+    intros x Hx. rewrite Forall_forall in H. apply H. exact Hx.
+  - cbn [dehole to_dv]. rewrite IHv1, IHv2, IHv3. reflexivity.
+Qed.
+
+(* ------------------------------------------------------------------ *)
+(* Documents of the fragment                                            *)
+(* ------------------------------------------------------------------ *)
+
+Section Documents.
+  Variable uc : bytes -> option bytes.
+  Variable tc : bytes -> option (bytes * bytes).
+
+  Lemma exec_fragment t d :
+    supported6 uc tc [] t = true -> sem t = Some d ->
+    exists st v d',
+      exec uc tc init_state (doc_events [] t) = ROk st /\ built st = dehole v /\
+      erase_doc [] d = Some d' /\ to_dv v = d'.
+  Proof.
+    unfold supported6. destruct (supp uc tc [] PGen t) as [ids'|] eqn:Hs; [|discriminate]. intros _ Hsem.
+    destruct (use_value uc tc t (all_values uc tc t) [] PGen ids' init_state [FTop] d Hs eq_refl)
+      as [st' [v [Hex [Hput [Hf [Hc [Her [Hh [Hp _]]]]]]]]];
+      try reflexivity; try discriminate; try assumption.
+    { constructor. }
+    exists st', v, (to_dv v). split.
+    { unfold doc_events. cbn [flat_map app exec step rbind].
+      rewrite (exec_app_ok uc tc _ _ init_state st' Hex). reflexivity. }
+    split.
+    { cbn [put init_state tobj] in Hput. unfold built, built_raw.
+      inversion Hput as [[Hs' Ht']]. destruct (contb t); reflexivity. }
+    split.
+    { unfold erase_doc. cbn [init_state marked env_data map] in Her. rewrite Her. reflexivity. }
+    reflexivity.
+  Qed.
+
+  (* C06, the part that holds: a document of the fragment is built without error, and the data
+     of the value built are the data of the document, references resolved and markers dropped *)
+  Theorem fragment_builds es t d :
+    strip es = doc_events [] t ->
+    supported6 uc tc [] t = true -> sem t = Some d ->
+    exists v d',
+      build_untyped uc tc es = Ok v /\ erase_doc [] d = Some d' /\ to_dv v = d'.
+  Proof.
+    intros Hes Hsup Hsem.
+    destruct (exec_fragment t d Hsup Hsem) as [st [v [d' [Hex [Hb [Her Hd]]]]]].
+    exists (built st), d'. split; [|split; [exact Her|]].
+    - unfold build_untyped. destruct (run uc tc init_state es 0) as [r i] eqn:Hrun.
+      pose proof (run_exec uc tc es init_state 0) as Hre. rewrite Hrun in Hre. cbn [fst] in Hre.
+      rewrite exec_strip, Hes, Hex in Hre. subst r. reflexivity.
+    - rewrite Hb, to_dv_dehole. exact Hd.
+  Qed.
+End Documents.
+
+(* ------------------------------------------------------------------ *)
+(* The full property and where the code violates it                     *)
+(* ------------------------------------------------------------------ *)
+
+Require CE.Model.Rules.
+
+(* Every document the validator accepts (given as record types + tree, with data d) is built
+   without error into a value whose data are d with records as maps, references resolved,
+   markers dropped.  (erase_doc resolves references to markers that are complete; documents
+   with forward references are outside this statement.) *)
+Definition C06_full_for (uc : bytes -> option bytes) (tc : bytes -> option (bytes * bytes)) : Prop :=
+  forall rts t d rd d',
+    Rules.accepts_document Rules.default_rcfg (doc_events rts t) = true ->
+    sem t = Some d -> rts_data rts = Some rd -> erase_doc rd d = Some d' ->
+    exists v, build_untyped uc tc (doc_events rts t) = Ok v /\ dv_eqb (to_dv v) d' = true.
+
+(* a document on which the property fails, whatever the library conversions do *)
+Definition refutes (rts : list rtdecl) (t : dt) : Prop :=
+  forall uc tc,
+  exists d rd d',
+    Rules.accepts_document Rules.default_rcfg (doc_events rts t) = true /\
+    sem t = Some d /\ rts_data rts = Some rd /\ erase_doc rd d = Some d' /\
+    ~ (exists v, build_untyped uc tc (doc_events rts t) = Ok v /\ dv_eqb (to_dv v) d' = true).
+
+Lemma refutes_full rts t : refutes rts t -> forall uc tc, ~ C06_full_for uc tc.
+Proof.
+  intros H uc tc Hfull. destruct (H uc tc) as [d [rd [d' [Ha [Hs [Hr [He Hn]]]]]]].
+  apply Hn. apply (Hfull rts t d rd d' Ha Hs Hr He).
+Qed.
+
+Ltac refute_err :=
+  intros uc tc; do 3 eexists;
+  split; [vm_compute; reflexivity|]; split; [vm_compute; reflexivity|];
+  split; [vm_compute; reflexivity|]; split; [vm_compute; reflexivity|];
+  intros [v [Hb _]]; vm_compute in Hb; discriminate.
+Ltac refute_data :=
+  intros uc tc; do 3 eexists;
+  split; [vm_compute; reflexivity|]; split; [vm_compute; reflexivity|];
+  split; [vm_compute; reflexivity|]; split; [vm_compute; reflexivity|];
+  intros [v [Hb He]]; vm_compute in Hb; inversion Hb; subst v; vm_compute in He; discriminate.
+
+(* an edge: the validator wants an end-container event after the destination, the edge builder
+   has already popped itself and the event hits its parent *)
+Definition w_edge : dt := TEdge (TLeaf (EPosInt 1)) (TLeaf (EPosInt 2)) (TLeaf (EPosInt 3)).
+Lemma edge_refuted : refutes [] w_edge.
+Proof. refute_err. Qed.
+Definition w_edge_in_list : dt := TList [w_edge; TLeaf (EPosInt 4)].
+Lemma edge_in_list_refuted : refutes [] w_edge_in_list.
+Proof. refute_err. Qed.
+
+(* two record types: Context.recordType is truncated to [:0] and reused, the second
+   declaration overwrites the keys of the first *)
+Definition w_rec_rts : list rtdecl :=
+  [([120], [TLeaf (EPosInt 1); TLeaf (EPosInt 2)]); ([121], [TLeaf (EPosInt 3)])].
+Definition w_rec : dt :=
+  TList [TRecord [120] [TLeaf (EPosInt 5); TLeaf (EPosInt 6)]; TRecord [121] [TLeaf (EPosInt 7)]].
+Lemma record_types_refuted : refutes w_rec_rts w_rec.
+Proof. refute_data. Qed.
+
+(* a reference in key position: stored under the previous key *)
+Definition w_refkey : dt :=
+  TMap [(TMark [97] (TLeaf (EStringArray AT_String [107])), TLeaf (EPosInt 1)); (TRef [97], TLeaf (EPosInt 2))].
+Lemma reference_as_key_refuted : refutes [] w_refkey.
+Proof. refute_data. Qed.
+Definition w_refkey_first : dt :=
+  TList [TMark [97] (TLeaf (EStringArray AT_String [107])); TMap [(TRef [97], TLeaf (EPosInt 2))]].
+Lemma reference_as_first_key_refuted : refutes [] w_refkey_first.
+Proof. refute_err. Qed.
+
+(* a marked scalar as node value: the marker pops the children builder *)
+Definition w_marked_node_value : dt := TNode (TMark [97] (TLeaf (EPosInt 1))) [TLeaf (EPosInt 2)].
+Lemma marker_on_node_value_refuted : refutes [] w_marked_node_value.
+Proof. refute_err. Qed.
+
+(* -0 given as a negative integer becomes the float +0 *)
+Definition w_negzero : dt := TList [TLeaf (ENegInt 0)].
+Lemma negative_zero_refuted : refutes [] w_negzero.
+Proof. refute_data. Qed.
+
+(* typed arrays the interface builder has no case for *)
+Definition w_bit_array : dt := TList [TLeaf (EArray AT_Bit 3 [5])].
+Lemma bit_array_refuted : refutes [] w_bit_array.
+Proof. refute_err. Qed.
+Definition w_uid_array : dt := TList [TLeaf (EArray AT_UID 1 [0;1;2;3;4;5;6;7;8;9;10;11;12;13;14;15])].
+Lemma uid_array_refuted : refutes [] w_uid_array.
+Proof. refute_err. Qed.
+Definition w_custom : dt := TList [TLeaf (ECustomBin 1 [1; 2])].
+Lemma custom_type_refuted : refutes [] w_custom.
+Proof. refute_err. Qed.
+
+(* a uint16 array in chunks: the completion test compares elements with bytes, the array is dropped *)
+Definition w_chunked_u16 : dt := TList [TChunked (ABArray AT_Uint16) [EArrayChunk 2 false; EArrayData [1; 0; 2; 0]]].
+Lemma chunked_wide_array_refuted : refutes [] w_chunked_u16.
+Proof. refute_data. Qed.
+
+(* float16 arrays come back as []float32 and are marshaled as float32 arrays *)
+Definition w_f16 : dt := TList [TLeaf (EArray AT_Float16 1 [192; 63])].
+Lemma float16_array_refuted : refutes [] w_f16.
+Proof. refute_data. Qed.
+(* a signalling NaN in a float32 array is quieted on the way out *)
+Definition w_f32_snan : dt := TList [TLeaf (EArray AT_Float32 1 [1; 0; 160; 127])].
+Lemma float32_snan_refuted : refutes [] w_f32_snan.
+Proof. refute_data. Qed.
+
+(* and the fragment is not empty: a document with every construct it has *)
+Definition frag_example : dt :=
+  TList [TMark [97] (TLeaf (EPosInt 5));
+         TMap [(TLeaf (EStringArray AT_String [107]), TRef [97]);
+               (TMark [98] (TLeaf (EInt (-3))), TNode (TLeaf ENull) [TRef [98]; TLeaf (EArray AT_Uint16 2 [1; 0; 2; 0])])];
+         TChunked (ABArray AT_String) [EArrayChunk 1 true; EArrayData [104]; EArrayChunk 1 false; EArrayData [105]];
+         TMark [99] (TList [TLeaf (EFloat 4609434218613702656); TLeaf (ENegInt 7)]);
+         TRef [99]].
+Lemma frag_example_supported : supported6 (fun b => Some b) (fun b => Some (b, b)) [] frag_example = true.
+Proof. vm_compute. reflexivity. Qed.
+Lemma frag_example_accepted :
+  Rules.accepts_document Rules.default_rcfg (doc_events [] frag_example) = true.
+Proof. vm_compute. reflexivity. Qed.
+Lemma frag_example_builds :
+  build_untyped (fun b => Some b) (fun b => Some (b, b)) (doc_events [] frag_example) =
+  Ok (UList [UUint 5;
+             UMap 5 [(UStr [107], UUint 5); (UInt (-3), UNode UNil [UInt (-3); UTyped AT_Uint16 [1; 2]])];
+             UStr [104; 105];
+             UList [UFloat 4609434218613702656; UInt (-7)];
+             UList [UFloat 4609434218613702656; UInt (-7)]]).
+Proof. vm_compute. reflexivity. Qed.
+
+(* the two halves of the fragment theorem, separately *)
+Lemma fragment_total uc tc es t d :
+  strip es = doc_events [] t -> supported6 uc tc [] t = true -> sem t = Some d ->
+  exists v, build_untyped uc tc es = Ok v.
+Proof.
+  intros H1 H2 H3. destruct (fragment_builds uc tc es t d H1 H2 H3) as [v [d' [Hb _]]].
+  exists v. exact Hb.
+Qed.
+
+Definition C06_full : Prop := forall uc tc, C06_full_for uc tc.
+
+Lemma C06_full_false : ~ C06_full.
+Proof.
+  intro H. apply (refutes_full [] w_edge edge_refuted (fun b => Some b) (fun b => Some (b, b))). apply H.
+Qed.
+
+(* ------------------------------------------------------------------ *)
+(* Marshaling the value again                                           *)
+(* ------------------------------------------------------------------ *)
+
+Lemma array_dv_plain t data :
+  negb ((t =? AT_String) || (t =? AT_ResourceID) || (t =? AT_ReferenceRemote)) = true ->
+  array_dv t data = DArr t data.
+Proof.
+  intro H. apply negb_true_iff in H. apply orb_false_iff in H as [H H3]. apply orb_false_iff in H as [H1 H2].
+  unfold array_dv. rewrite H1, H2, H3. reflexivity.
+Qed.
+
+Lemma oconcat_cons {A} (x : option (list A)) l :
+  oconcat (x :: l) = match x, oconcat l with Some a, Some b => Some (a ++ b) | _, _ => None end.
+Proof. reflexivity. Qed.
+
+Lemma iterate_list l :
+  Forall (fun v => dv_plain (to_dv v) = true ->
+                   exists t, iterate_val v = Some (flat t) /\ sem t = Some (to_dv v)) l ->
+  forallb dv_plain (map to_dv l) = true ->
+  exists ts, oconcat (map iterate_val l) = Some (flat_map flat ts) /\ omap2 sem ts = Some (map to_dv l).
+Proof.
+  induction 1 as [|v r Hv _ IH]; intro Hp.
+  - exists []. split; reflexivity.
+  - cbn [map forallb] in Hp. apply andb_true_iff in Hp as [Hpv Hpr].
+    destruct (Hv Hpv) as [t [Hi Hs]]. destruct (IH Hpr) as [ts [Hc Ho]].
+    exists (t :: ts). split.
+    + cbn [map]. rewrite oconcat_cons, Hi, Hc. reflexivity.
+    + cbn [omap2 map]. rewrite Hs, Ho. reflexivity.
+Qed.
+
+Theorem iterate_denotes v :
+  dv_plain (to_dv v) = true ->
+  exists t, iterate_val v = Some (flat t) /\ sem t = Some (to_dv v).
+Proof.
+  induction v using uval_ind2; intro Hp.
+  - destruct v; try contradiction;
+      try (eexists (TLeaf _); split; reflexivity).
+    + destruct v; eexists (TLeaf _); split; reflexivity.
+    + destruct v; eexists (TLeaf _); split; reflexivity.
+    + destruct v; eexists (TLeaf _); split; reflexivity.
+    + (* UTyped *)
+      eexists (TLeaf _). split; [reflexivity|]. cbn [sem event_dv to_dv].
+      rewrite (array_dv_plain t _ Hp). reflexivity.
+    + (* UMedia *)
+      cbn [to_dv dv_plain] in Hp. destruct mt; [discriminate|].
+      eexists (TLeaf _). split; reflexivity.
+  - (* list *)
+    cbn [to_dv dv_plain] in Hp. destruct (iterate_list l H Hp) as [ts [Hc Ho]].
+    exists (TList ts). split.
+    + cbn [iterate_val flat]. rewrite Hc. reflexivity.
+    + cbn [sem to_dv]. rewrite Ho. reflexivity.
+  - (* map *)
+    cbn [to_dv dv_plain] in Hp.
+    assert (Hm : exists ts,
+      oconcat (map (fun '(k, x) => match iterate_val k, iterate_val x with
+                                   | Some a, Some b => Some (a ++ b) | _, _ => None end) kvs)
+      = Some (flat_map (fun '(k, v) => flat k ++ flat v) ts) /\
+      omap2 (fun '(k, v) => match sem k, sem v with Some a, Some b => Some (a, b) | _, _ => None end) ts
+      = Some (map (fun '(k, x) => (to_dv k, to_dv x)) kvs)).
+    { clear id. induction H as [|[k x] r [Hk Hx] _ IH].
+      - exists []. split; reflexivity.
+      - cbn [map forallb] in Hp. apply andb_true_iff in Hp as [Hpv Hpr].
+        apply andb_true_iff in Hpv as [Hpk Hpx]. cbn [fst snd] in Hk, Hx.
+        destruct (Hk Hpk) as [tk [Hik Hsk]]. destruct (Hx Hpx) as [tx [Hix Hsx]].
+        destruct (IH Hpr) as [ts [Hc Ho]].
+        exists ((tk, tx) :: ts). split.
+        + cbn [map]. rewrite oconcat_cons, Hik, Hix, Hc. cbn [flat_map]. reflexivity.
+        + cbn [omap2 map]. rewrite Hsk, Hsx, Ho. reflexivity. }
+    destruct Hm as [ts [Hc Ho]]. exists (TMap ts). split.
+    + cbn [iterate_val flat]. rewrite Hc. reflexivity.
+    + cbn [sem to_dv]. rewrite Ho. reflexivity.
+  - (* node *)
+    cbn [to_dv dv_plain] in Hp. apply andb_true_iff in Hp as [Hpa Hpc].
+    destruct (IHv Hpa) as [ta [Hia Hsa]]. destruct (iterate_list ch H Hpc) as [ts [Hc Ho]].
+    exists (TNode ta ts). split.
+    + cbn [iterate_val flat]. rewrite Hia, Hc. reflexivity.
+    + cbn [sem to_dv]. rewrite Hsa, Ho. reflexivity.
+  - discriminate.
+Qed.
+
+(* C06, second half on the fragment: marshaling the value built gives a document with the erased data *)
+Theorem fragment_remarshals uc tc es t d d' :
+  strip es = doc_events [] t -> supported6 uc tc [] t = true -> sem t = Some d ->
+  erase_doc [] d = Some d' -> dv_plain d' = true ->
+  exists v t', build_untyped uc tc es = Ok v /\
+               iterate_doc v = Some (doc_events [] t') /\ sem t' = Some d'.
+Proof.
+  intros H1 H2 H3 He Hp.
+  destruct (fragment_builds uc tc es t d H1 H2 H3) as [v [d'' [Hb [He' Hd]]]].
+  rewrite He in He'. injection He' as Hdd. rewrite <- Hdd in Hd. clear Hdd.
+  rewrite <- Hd in Hp. destruct (iterate_denotes v Hp) as [t' [Hi Hs]].
+  exists v, t'. split; [exact Hb|]. split.
+  - unfold iterate_doc. rewrite Hi. reflexivity.
+  - rewrite Hs, Hd. reflexivity.
+Qed.
